@@ -189,7 +189,7 @@ class Evaluator:
         try:
             args = [T.bv(d + i) for i in range(n)]
             facts = self.item_facts(upstream, args[0]) if upstream is not None and n == 1 else []
-            return ('lam', d, self.with_pc(facts, lambda: self.apply(fv, args, depth)))
+            return ('lam' if n == 1 else 'lam2', d, self.with_pc(facts, lambda: self.apply(fv, args, depth)))
         finally:
             self.bvd = old
 
